@@ -21,6 +21,7 @@ from harness import Part, ok, violation, skip
 from gemato.exceptions import OpenPGPSigningFailure, GematoException
 from gemato.manifest import ManifestFile
 from gemato.openpgp import SystemGPGEnvironment
+from gemato.profile import get_profile_by_name
 
 PROPERTY = 'C14'
 LEVEL = 'exploration'
@@ -111,6 +112,8 @@ def case(draw):
         # update may (de)compress it
         # CLI: `gemato create` run again over the existing tree
         'cli_cmd': draw(st.sampled_from(['update', 'update', 'create'])),
+        # a profile that sorts: signing wraps the same text
+        'profile': draw(st.sampled_from([None, None, None, 'ebuild'])),
         'top_fmt': draw(st.sampled_from(['', '', '', 'gz', 'xz'])),
         'watermark': draw(st.sampled_from([None, None, 0, 10 ** 6])),
     }
@@ -240,6 +243,8 @@ def run_case(desc):
                 argv.append('-f')
             if watermark is not None:
                 argv += ['-c', str(watermark)]
+            if desc.get('profile'):
+                argv += ['-p', desc['profile']]
             oc, records, _ = gem.cli(argv + [root])
             if oc.kind == 'return' and oc.value == 1:
                 msgs = [r.msg for r in gem.error_records(records)]
@@ -253,7 +258,9 @@ def run_case(desc):
                     sign_openpgp=desc['sign'], openpgp_keyid=keyid,
                     hashes=desc['hashes'],
                     **({'compress_watermark': watermark}
-                       if watermark is not None else {}))
+                       if watermark is not None else {}),
+                    **({'profile': get_profile_by_name(desc['profile'])}
+                       if desc.get('profile') else {}))
                 m.update_entries_for_directory('')
                 m.save_manifests(force=desc['force'])
                 if desc.get('second_save'):
@@ -411,6 +418,19 @@ def run_case(desc):
             return violation(
                 f'{what}: signed by {vs[0][-1] if vs else None}, expected '
                 f'key {expect_fpr}', sig='wrong-signing-key', classes=classes)
+        if desc.get('profile') == 'ebuild':
+            # the profile sorts: the signed text is the sorted text
+            ms = ManifestFile()
+            ms.load(io.StringIO(body), verify_openpgp=False)
+            out = io.StringIO()
+            ms.dump(out, sign_openpgp=False, sort=True)
+            classes.append('profile:ebuild')
+            if out.getvalue() != body:
+                return violation(
+                    f'{what} with the sorting ebuild profile: the signed '
+                    f'text {body!r} is not in sorted order '
+                    f'({out.getvalue()!r})', sig='signed-not-sorted',
+                    classes=classes)
         rc, clear, _ = fx['check'].decrypt(text)
         if clear.decode('utf8') != body:
             return violation(
